@@ -55,6 +55,16 @@ func chunkOf(rng *rand.Rand) string {
 	return s
 }
 
+// csiRun: a control sequence with three parameters, then n adjacent ones whose parameters all differ: storage handed
+// back with the first (Finish) is used for the later ones while their neighbours are still waiting to be received.
+func csiRun(n int) string {
+	s := "\x1b[1;2;3m"
+	for k := 1; k <= n; k++ {
+		s += fmt.Sprintf("\x1b[%d;%d;%dH\x1b[?%d;%dh", 10*k+1, 10*k+2, 10*k+3, 100*k+4, 100*k+5)
+	}
+	return s
+}
+
 // manySeqs: six rounds of CSI / ESC / OSC / DCS / APC whose parameters and payloads all differ.
 func manySeqs() string {
 	s := ""
@@ -150,6 +160,8 @@ func Fixed() []*Scn {
 				mk("lone-esc-behind-full-channel", cons, retain, false, h("abc\x1b", false), h("[A", true), h("x", true)),
 				mk("lone-esc-behind-full-channel", cons, retain, true, h("\x1b[1;2Hab\x1b", false), h("Pq", true), h("\x1b", true)),
 				mk("many-seqs-retained", cons, retain, false, h(manySeqs(), false)),
+				mk("finish-then-reuse", cons, retain, false, h(csiRun(8), false)),
+				mk("finish-then-reuse", cons, retain, true, h("\x1b[1;2;3m", false), h(csiRun(6), true), h(csiRun(3), true)),
 			)
 		}
 	}
